@@ -216,6 +216,15 @@ def check_property(prop, tier, seed, units, no_kani=False, verbose=False):
                 kani_notes.append('kani harness %s: %s' % (h['name'], h['status']))
         for m in kani_res.get('machinery', []):
             undecided.append('kani: ' + m)
+    selftest_ev = None
+    if tier == 'thorough' and not violations and vx.REPO == '/repo':
+        # mutation regression of the contracts themselves (scratch copies, never /repo)
+        import selftest
+        selftest_ev = selftest.run(prop)
+        for x in selftest_ev['survived']:
+            undecided.append('selftest: stored mutant %s is no longer detected (expected %s)' % (x['id'], x.get('expected')))
+        for x in selftest_ev['false_alarm']:
+            undecided.append('selftest: harmless edit %s raises %s' % (x['id'], x['fails']))
     if not obligations and not violations:
         undecided.append('zero obligations generated for %s' % prop)
     # ---- output
@@ -262,6 +271,7 @@ def check_property(prop, tier, seed, units, no_kani=False, verbose=False):
             'not_decided': pc.get('not_decided', []),
             'known_findings_reported': [k['what'] for k, _ in known_hits],
             'undecided': undecided,
+            'selftest': selftest_ev,
             'kani_notes': kani_notes,
             'smt_run_ms_total': smt_ms,
         },
